@@ -100,10 +100,20 @@ def cases(draw, ctx):
                 else:
                     model.popleft()
         elif c == "popw":
-            variant = draw(st.sampled_from([3, 4, 5]))
-            progs[t].append("ppop %d %d %d" % (TEST, variant, draw(st.sampled_from([1, 30, 120]))))
-            if access == "priv" and model:
-                model.popleft()
+            variant = draw(st.sampled_from([3, 4, 5, 6, 6]))
+            if variant == 6:
+                # pop_wait_thread_ex: the context flag chooses the end of a RANDWS pool
+                cx = draw(st.sampled_from([0, 2, 2, 3]))
+                progs[t].append("ppop %d 6 %d" % (TEST, cx))
+                if access == "priv" and model:
+                    if cx == 2 and kind == "randws":
+                        model.pop()
+                    else:
+                        model.popleft()
+            else:
+                progs[t].append("ppop %d %d %d" % (TEST, variant, draw(st.sampled_from([1, 30, 120]))))
+                if access == "priv" and model:
+                    model.popleft()
         elif c == "remove":
             u = draw(st.sampled_from(list(model)))
             model.remove(u)
@@ -240,7 +250,7 @@ def classify(text, res, ctx):
     out = []
     n = text.split("note ")[-1].split()
     out += n[:2]
-    for k in ("pool_pops_empty", "pool_removes"):
+    for k in ("pool_pops_empty", "pool_removes", "pool_pop_wait_ex"):
         if stat(res, k):
             out.append(k)
     if overlap(parse_history(res)):
